@@ -12,6 +12,9 @@
 //      anything else (ill-conditioned or inconsistent random sets) is only held to Newton's law.
 //  (M) a twin model WITHOUT the disabled constraints gives the same udot, constraint forces G'*lambda (multipliers too
 //      when W has full rank) and mobilizer reaction forces.
+//  (M) history: after all of the above, only u (then only q, then only t if a time-dependent constraint is enabled) is changed in the
+//      SAME State and everything re-realized: qerr/uerr/udoterr, multipliers, udot, qdot, qdotdot, constraint body and mobility forces
+//      and power must equal those of a fresh State of a fresh copy of the system at the identical (t,q,u) (1e-12; observed bit-identical).
 //  (V) power: calcConstraintPower = sum of Constraint::calcPower = -lambda.(G u); when every enabled constraint has a
 //      velocity error homogeneous in u: |power| <= 10*|lambda|*|verr| (+rounding), i.e. zero on the velocity manifold.
 #include "pbt.h"
@@ -246,6 +249,41 @@ void judge(pbt::Ctx& ctx, const consgen::Model& cm, const Plan& pl, bool applyKn
             for (int b = 0; b < NB; ++b) if (!within("twin-reactions", (R1[b][0] - R2[b][0]).norm() + (R1[b][1] - R2[b][1]).norm(), (1e-9 + 1e-14 * cond * kappaM) * rsc * kappaM)) { ctx.fail("mobilizer reaction of body " + I(b) + " differs between the model with disabled constraints and the model without them by " + S((R1[b][0] - R2[b][0]).norm() + (R1[b][1] - R2[b][1]).norm())); return; }
         }
     }
+    // ---- (M) same-State history: the State judged above has been realized to Acceleration and queried through many operators. Now change
+    // ONLY u (then only q, then only t) in that very State, realize again and compare everything C08 judges with a brand new State of a
+    // brand new copy of the system set to the identical (t,q,u) and forces: a cache entry that is not invalidated by the change shows up as
+    // a difference (the computations are otherwise the same operations in the same order: observed bit-identical, tolerance 1e-12).
+    if (!blowup && !ctx.failed) {
+        Sys C(cm, pl, true); const State pristine = C.m->state;      // realized to Model stage only
+        struct Snap { Vector qerr, uerr, udoterr, lam, udot, qdot, qdotdot; std::vector<Vector_<SpatialVec>> bf; std::vector<Vector> mf; Real power = 0; bool threw = false; };
+        auto take = [&](const MultibodySystem& sy, consgen::BuiltCons& mm, State& x) { Snap o;
+            try { HeapPoison poison; sy.realize(x, Stage::Acceleration); } catch (const std::exception&) { o.threw = true; return o; }
+            o.qerr = x.getQErr(); o.uerr = x.getUErr(); o.udoterr = x.getUDotErr(); o.lam = x.getMultipliers(); o.udot = x.getUDot(); o.qdot = x.getQDot(); o.qdotdot = x.getQDotDot();
+            for (int i = 0; i < nc; ++i) { Vector_<SpatialVec> b; Vector f2; if (!cm.cons[i].disabled) mm.cons[i].getConstraintForcesAsVectors(x, b, f2); o.bf.push_back(b); o.mf.push_back(f2); }
+            o.power = mm.matter.calcConstraintPower(x); return o; };
+        auto same = [](Real a, Real b) { return a == b || (std::isnan(a) && std::isnan(b)) || std::abs(a - b) <= 1e-12 * (1 + std::abs(a) + std::abs(b)); };
+        auto cmpV = [&](const char* step, const char* what, const Vector& a, const Vector& b) { if (a.size() != b.size()) { ctx.fail(std::string(step) + ": " + what + " has " + I(a.size()) + " entries in the re-used State and " + I(b.size()) + " in a fresh one"); return false; }
+            for (int i = 0; i < a.size(); ++i) if (!same(a[i], b[i])) { ctx.fail(std::string(step) + ": " + what + "[" + I(i) + "] = " + S(a[i]) + " in the State that was realized before the change, " + S(b[i]) + " in a fresh State with the same (t,q,u) and forces: a stale cache entry survives the change"); return false; } return true; };
+        auto step = [&](const char* name) {     // s already modified by the caller
+            State fr = pristine; fr.setTime(s.getTime()); fr.updQ() = s.getQ(); fr.updU() = s.getU();
+            C.disc.setAllMobilityForces(fr, f); C.disc.setAllBodyForces(fr, F);
+            Snap a = take(sys, m, s), b = take(C.m->sys, *C.m, fr);
+            if (a.threw != b.threw) { ctx.fail(std::string(name) + ": realize(Acceleration) " + (a.threw ? "throws" : "succeeds") + " on the re-used State but " + (b.threw ? "throws" : "succeeds") + " on a fresh State with the same (t,q,u)"); return false; }
+            if (a.threw) { ctx.label(std::string(name) + ":both-threw"); return false; }
+            ctx.label(name);
+            if (!cmpV(name, "getQErr", a.qerr, b.qerr) || !cmpV(name, "getUErr", a.uerr, b.uerr) || !cmpV(name, "getUDotErr", a.udoterr, b.udoterr) || !cmpV(name, "getMultipliers", a.lam, b.lam)
+                || !cmpV(name, "getUDot", a.udot, b.udot) || !cmpV(name, "getQDot", a.qdot, b.qdot) || !cmpV(name, "getQDotDot", a.qdotdot, b.qdotdot)) return false;
+            for (int i = 0; i < nc; ++i) { if (!cmpV(name, ("mobility forces of constraint " + I(i)).c_str(), a.mf[i], b.mf[i])) return false;
+                if (a.bf[i].size() != b.bf[i].size()) { ctx.fail(std::string(name) + ": constrained body force count differs"); return false; }
+                for (int k = 0; k < a.bf[i].size(); ++k) for (int c = 0; c < 2; ++c) for (int d = 0; d < 3; ++d) if (!same(a.bf[i][k][c][d], b.bf[i][k][c][d])) { ctx.fail(std::string(name) + ": body force " + I(k) + " of constraint " + I(i) + " (" + consgen::consName(cm.cons[i].type) + ") = " + S(a.bf[i][k][c][d]) + " in the re-used State, " + S(b.bf[i][k][c][d]) + " in a fresh State with the same (t,q,u)"); return false; } }
+            if (!same(a.power, b.power)) { ctx.fail(std::string(name) + ": calcConstraintPower = " + S(a.power) + " in the re-used State, " + S(b.power) + " in a fresh one"); return false; }
+            return true; };
+        bool go = true;
+        {   Vector un(nu); for (int i = 0; i < nu; ++i) un[i] = 2 * rng.next(); s.updU() = un; go = step("history:u-only"); }
+        if (go) { Vector qn = s.getQ(); for (int i = 0; i < qn.size(); ++i) qn[i] += 0.05 * rng.next(); s.updQ() = qn; go = step("history:q-only"); }
+        bool timeDep = false; for (auto& c : cm.cons) if (!c.disabled && (c.type == consgen::PrescribedMotion || (c.type == consgen::Custom && c.flavour == 0))) timeDep = true;
+        if (go && timeDep) { s.setTime(s.getTime() + 0.37); step("history:t-only"); }
+    }
 }
 
 // ---- redundancy classes by construction
@@ -312,7 +350,7 @@ pbt::Config config() {
                      "udoterr tolerance (1e-11 + 1e-14*cond(G M^-1 G')*kappa(M)) x scale"};
     c.directed = {{"rod-from-pin-centre-to-body-station", "c08-null-constraint-multiplier-blowup", directedNull},
                   {"two-pointinplane-between-welded-bodies", "c08-qtz-rank0-multipliers-uninitialized", directedZero}};
-    c.requiredLabels = {"set:full-rank", "set:rank-deficient-consistent", "set:inconsistent", "set:null-G", "set:zero-GMInvGt", "some-disabled", "mixed-classes", "redundant:duplicated-constraint", "redundant:weld+ball-same-pair", "redundant:relatively-immobile-pair",
+    c.requiredLabels = {"set:full-rank", "set:rank-deficient-consistent", "set:inconsistent", "set:null-G", "set:zero-GMInvGt", "history:u-only", "history:q-only", "history:t-only", "some-disabled", "mixed-classes", "redundant:duplicated-constraint", "redundant:weld+ball-same-pair", "redundant:relatively-immobile-pair",
                         "power:workless-on-velocity-manifold", "demanded:udoterr=0/full-rank", "demanded:udoterr=0/redundant-consistent"};
     return c;
 }
